@@ -219,8 +219,8 @@ Theorem C12_own_limits : forall (V : Type) (L : leaves V) cfg specs (fresh : nat
 Proof. exact l_own_limits. Qed.
 
 (* what one tightening produces, by family: uniform = intersection with the old range; gaussian = centred between the
-   limits with sigma = hi - lo >= 0 and infinite limits; log-uniform = (max(1e-6, lo), hi); a log-gaussian prior cannot be
-   tightened (TypeError: known finding) *)
+   limits with sigma = hi - lo >= 0 and infinite limits; log-uniform = (max(1e-6, lo), hi); log-gaussian = intersection
+   with the old range, mean and sigma kept (since d755794; before, it raised TypeError: Witness.v, history) *)
 Theorem C12_tightened_prior : forall (V : Type) (L : leaves V) specs (q : nat) (l : V * V) (s : spec V),
   lderive_limits V L specs q l = Ok s ->
   exists old, lookup_nat q specs = Some old /\ s_fam V s = s_fam V old /\ s_wm V s = None /\
@@ -230,7 +230,7 @@ Theorem C12_tightened_prior : forall (V : Type) (L : leaves V) specs (q : nat) (
     | FGaussian => s_mean V s = l_gl_mean V L (fst l) (snd l) /\ s_sigma V s = l_gl_sigma V L (fst l) (snd l) /\
                    l_neg_sigma V L (s_sigma V s) = false /\ s_lo V s = l_ninf V L /\ s_hi V s = l_pinf V L
     | FLogUniform => s_lo V s = l_lu_lo V L (fst l) /\ s_hi V s = l_lu_hi V L (snd l)
-    | FLogGaussian => False
+    | FLogGaussian => s_lo V s = l_pl_lo V L (fst l) (s_lo V old) /\ s_hi V s = l_pl_hi V L (snd l) (s_hi V old)
     end.
 Proof. exact l_derive_limits_shape. Qed.
 
